@@ -83,6 +83,7 @@ func c10cServe(conn net.Conn) {
 func c10CloneLeg(c *h.Ctx) {
 	for _, refuse := range []int32{2, 3} {
 		cj := map[string]any{"leg": "clone", "refused_dial": refuse}
+		c.Current(cj)
 		var dials atomic.Int32
 		var conns []net.Conn
 		var mu sync.Mutex
